@@ -249,7 +249,21 @@ func (h *handler) Handle(req map[string]interface{}) interface{} {
 	gi := int(req["g"].(float64))
 	only, _ := req["only"].(string)
 	ctx := context.Background()
-	w, err := h.world(gi)
+	var w *world
+	var err error
+	if fresh, _ := req["fresh"].(bool); fresh {
+		// a newly built graph (the driver fixes the order of its mappings when the graph is built)
+		if gi >= 1 && gi <= len(h.specs) {
+			w, err = buildWorld(h.specs[gi-1].(map[string]interface{}))
+		} else {
+			err = fmt.Errorf("no world %d", gi)
+		}
+		if err == nil {
+			defer w.close()
+		}
+	} else {
+		w, err = h.world(gi)
+	}
 	if err != nil {
 		resp["harness_err"] = err.Error()
 		return resp
